@@ -131,7 +131,7 @@ def build(reg):
                     head_snap={"cover_at_head": "cover", "g_at_head": "g"}),
                 1: dict(inv={"skip_iff": "skip == exists(q, 0, IT, not ((pairs(c)[q][0], pairs(c)[q][1]) in g.adj))", "frame": "g == g_in and cover == cover_in and G == old(G)"},
                         snap={"g_in": "g", "cover_in": "cover"}),
-                2: dict(inv={"adj": "G.adj == old(G).adj", "ids": "clique_ID == ID0 + IT",
+                2: dict(iterates="cover", inv={"adj": "G.adj == old(G).adj", "ids": "clique_ID == ID0 + IT",
                              "claimed_all": f"forall_elem(a, Int, forall_elem(b, Int, implies((a, b) in old(G).adj, {CLAIMED})))",
                              "labelled": "forall(m, 0, IT, forall_elem(a, Int, forall_elem(b, Int, implies(inpair(cover[m], a, b), (a, b) in G.lab_has))))",
                              "label_of": "forall(m, 0, IT, forall_elem(a, Int, forall_elem(b, Int, implies(inpair(cover[m], a, b), G.lab[(a, b)] == label(csize(cover[m]), cover[m], ID0 + m)))))",
